@@ -110,6 +110,14 @@ public:
     // Calculate TTL from DNS result
     std::uint32_t ttl = calculateResultTtl(result);
 
+    // RFC 1035: a zero TTL means "do not cache". ExpiringCache::set() treats 0 as
+    // "use the default TTL", so drop any entry this answer supersedes instead.
+    if (ttl == 0)
+    {
+      cache_->remove(key);
+      return;
+    }
+
     // Store positive result
     CachedDnsResult cachedResult(result);
     cache_->set(key, cachedResult, std::chrono::seconds(ttl));
@@ -150,6 +158,13 @@ public:
     auto existingEntry = cache_->get(key);
     bool hadEntry = existingEntry.has_value();
     bool hadNegativeEntry = hadEntry && existingEntry->isNegative;
+
+    // A zero negative TTL (e.g. SOA MINIMUM 0) means "do not cache"; see put().
+    if (negativeTtl == 0)
+    {
+      cache_->remove(key);
+      return;
+    }
 
     // Store negative result
     CachedDnsResult cachedResult(result, errorMessage);
